@@ -43,6 +43,14 @@ def separate_into_sections(pattern=DEFAULT_SECTION_PATTERN, independent=True, re
     report[TOOL_NAME]['section_group'] = FeedbackSourceSection(0)
     report.start_group(report[TOOL_NAME]['section_group'])
     report.submission.clear_line_offsets()
+    # The separators are kept as every other entry of the split: a pattern
+    # written without a capture group would drop them (and every other section)
+    if isinstance(pattern, str) and re.compile(pattern).groups == 0:
+        try:
+            pattern = re.compile("(" + pattern + ")", flags=re.MULTILINE).pattern
+        except re.error:
+            # (inline global flags have to stay at the front)
+            pass
     report[TOOL_NAME]['section_pattern'] = pattern
     report[TOOL_NAME]['sections'] = re.split(pattern, report.submission.main_code, flags=re.MULTILINE)
 
